@@ -466,3 +466,86 @@ func timeDiffClass(x, y string) string {
 	}
 	return x[:i] + "/instant"
 }
+
+// ---- canonical sibling order -----------------------------------------------------------
+//
+// The order of differently named children is a writer's free choice, the order
+// of equally named children is not: correspondence lines compare token streams
+// after a stable sort of every child list by element name (text first); the
+// Lean driver does the same (`canonNode`).
+
+type tnode struct {
+	start xml.StartElement
+	text  xml.CharData
+	isEl  bool
+	kids  []*tnode
+}
+
+func buildTree(toks []xml.Token) ([]*tnode, bool) {
+	root := &tnode{}
+	stack := []*tnode{root}
+	for _, t := range toks {
+		top := stack[len(stack)-1]
+		switch t := t.(type) {
+		case xml.StartElement:
+			n := &tnode{start: t, isEl: true}
+			top.kids = append(top.kids, n)
+			stack = append(stack, n)
+		case xml.EndElement:
+			if len(stack) == 1 {
+				return nil, false
+			}
+			stack = stack[:len(stack)-1]
+		case xml.CharData:
+			top.kids = append(top.kids, &tnode{text: t})
+		}
+	}
+	return root.kids, len(stack) == 1
+}
+
+func (n *tnode) key() (string, string) {
+	if !n.isEl {
+		return "", ""
+	}
+	return n.start.Name.Space, n.start.Name.Local
+}
+
+func flattenTree(ns []*tnode, out *[]xml.Token) {
+	sort.SliceStable(ns, func(i, j int) bool {
+		a1, a2 := ns[i].key()
+		b1, b2 := ns[j].key()
+		if a1 != b1 {
+			return a1 < b1
+		}
+		return a2 < b2
+	})
+	for _, n := range ns {
+		if !n.isEl {
+			*out = append(*out, n.text)
+			continue
+		}
+		*out = append(*out, n.start)
+		flattenTree(n.kids, out)
+		*out = append(*out, n.start.End())
+	}
+}
+
+// canonOrder returns the token stream in canonical sibling order (the top
+// level keeps its order).
+func canonOrder(toks []xml.Token) []xml.Token {
+	roots, ok := buildTree(toks)
+	if !ok {
+		return toks
+	}
+	var out []xml.Token
+	for _, r := range roots {
+		if !r.isEl {
+			out = append(out, r.text)
+			continue
+		}
+		out = append(out, r.start)
+		flattenTree(r.kids, &out)
+		out = append(out, r.start.End())
+	}
+	return out
+}
